@@ -229,57 +229,106 @@ def r174(ctx, repo):
 
 
 def r175(ctx, repo):
-    cls = repo.cls(UT, "file_monitoring_lru_cache")
+    """`file_monitoring_lru_cache` (loaded from its syntax tree) on a model
+    file system: every call returns what a fresh call of the wrapped
+    function returns for the file as it is now."""
+    from ..lib_C17 import FileModel
     call = repo.func(UT, "file_monitoring_lru_cache.__call__")
-    inner = {n.name: n for n in walk(call, nested=True)
-             if isinstance(n, ast.FunctionDef) and n is not call}
-    if "wrapper" not in inner or "cached_wrapper" not in inner:
-        raise AnalysisError("file_monitoring_lru_cache: inner functions lost")
-    w, cw = inner["wrapper"], inner["cached_wrapper"]
-    ok = any("lru_cache" in txt(d) for d in cw.decorator_list)
-    ctx.ob("R17.5", ok, "the inner function is lru-cached" if ok else
-           "inner function lost its lru_cache", node=cw, label="lru cached")
-    cc = [c for c in walk(w) if isinstance(c, ast.Call)
-          and txt(c.func) == "cached_wrapper"]
-    if len(cc) != 1:
-        raise AnalysisError("file_monitoring_lru_cache: cached call lost")
-    c = cc[0]
-    pathv = kwarg(c, "path", 0)
-    statv = kwarg(c, "path_stats", 1)
-    resolved = False
-    if isinstance(pathv, ast.Name):
-        d = [n for n in walk(w) if isinstance(n, ast.Assign) and txt(
-            n.targets[0]) == pathv.id]
-        resolved = bool(d) and "resolve()" in txt(d[0].value)
-    ctx.ob("R17.5", resolved, "the key contains the resolved path" if
-           resolved else "the key path is not resolved (relative paths "
-           "alias after chdir)", node=c, label="key resolved path")
-    st = expand_locals(w, statv) if statv is not None else ""
-    for need in ("st_mtime_ns", "st_size"):
-        ok = need in st
-        ctx.ob("R17.5", ok, f"the key contains {need}" if ok else
-               f"the key lost {need}: a rewritten file returns the old hash",
-               node=c, label=f"key {need}")
-    ok = any(isinstance(a, ast.Starred) for a in c.args) and any(
-        k.arg is None for k in c.keywords)
-    ctx.ob("R17.5", ok, "all remaining arguments are part of the key" if ok
-           else "remaining arguments are not forwarded to the cached "
-           "function", node=c, label="key remaining args")
-    # stat of the same resolved path, guarded by exists; else branch by-passes
-    ifs = [n for n in walk(w) if isinstance(n, ast.If)
-           and "exists()" in txt(n.test)]
-    ok = bool(ifs) and any(isinstance(r, ast.Return) and isinstance(
-        r.value, ast.Call) and txt(r.value.func) == "func"
-        for r in ifs[0].orelse)
-    ctx.ob("R17.5", ok, "non-existing paths by-pass the cache" if ok else
-           "non-existing paths are cached", node=w, label="bypass missing")
-    # the cached inner calls func with the same arguments
-    r = [n for n in walk(cw) if isinstance(n, ast.Return)]
-    ok = bool(r) and isinstance(r[0].value, ast.Call) and txt(
-        r[0].value.func) == "func" and txt(r[0].value.args[0]) == "path"
-    ctx.ob("R17.5", ok, "a miss calls the wrapped function on the path" if
-           ok else "cached inner function does not call func(path, ...)",
-           node=cw, label="miss calls func", nontrivial=False)
+    fails = {}
+
+    def fail(key, msg):
+        if any(f"'{k}'" in msg for k in ("P", "MPath", "Stat")) and (
+                "AttributeError" in msg or "TypeError" in msg):
+            raise AnalysisError("r175: the model lacks what the code uses: "
+                                + msg[:300])
+        fails.setdefault(key, msg)
+    SEC = 10**9
+    nev = 0
+    for as_path in (False, True):
+        m = FileModel(repo)
+        m.fs.alias["/d/link.rtdc"] = "/d/a.rtdc"
+        m.links.add("/d/link.rtdc")
+        m.fs.alias["/d/sub/../a.rtdc"] = "/d/a.rtdc"
+        m.write("/d/a.rtdc", b"abc", 5 * SEC)
+        m.write("/d/b.rtdc", b"abc", 5 * SEC)
+        m.write("/e/a.rtdc", b"xyz", 5 * SEC)
+        steps = [
+            ("call", "/d/a.rtdc", (), {}),
+            ("call", "/d/a.rtdc", (), {}),
+            ("call", "/d/b.rtdc", (), {}),
+            ("call", "/e/a.rtdc", (), {}),
+            ("call", "/d/link.rtdc", (), {}),
+            ("call", "/d/sub/../a.rtdc", (), {}),
+            ("chdir", "a.rtdc", "/d/a.rtdc", "working directory /d"),
+            ("call", "a.rtdc", (), {}),
+            ("chdir", "a.rtdc", "/e/a.rtdc", "working directory /e"),
+            ("call", "a.rtdc", (), {}),
+            ("call", "/d/a.rtdc", (), {"count": 2}),
+            ("call", "/d/a.rtdc", (), {"count": 3}),
+            ("call", "/d/a.rtdc", (7,), {}),
+            ("call", "/d/a.rtdc", (7, 2), {}),
+            ("call", "/d/a.rtdc", (8,), {}),
+            ("write", "/d/a.rtdc", b"abd", 5 * SEC + 1,
+             "rewritten with the same size, 1 ns later"),
+            ("call", "/d/a.rtdc", (), {}),
+            ("call", "/d/link.rtdc", (), {}),
+            ("write", "/d/a.rtdc", b"abde", 5 * SEC + 1,
+             "rewritten with another size, same time stamp"),
+            ("call", "/d/a.rtdc", (), {}),
+            ("write", "/d/a.rtdc", b"abdf", 5 * SEC + 500,
+             "rewritten within the same second (float seconds equal)"),
+            ("call", "/d/a.rtdc", (), {}),
+            ("call", "/d/a.rtdc", (), {"count": 2}),
+            ("remove", "/d/a.rtdc"),
+            ("call", "/d/a.rtdc", (), {}),
+            ("write", "/d/a.rtdc", b"new", 9 * SEC, "created again"),
+            ("call", "/d/a.rtdc", (), {}),
+            ("call", "/d/b.rtdc", (), {}),
+        ]
+        hist = []
+        for st in steps:
+            if st[0] == "write":
+                m.write(st[1], st[2], st[3])
+                hist.append(f"{st[1]} {st[4]}")
+                continue
+            if st[0] == "chdir":
+                m.fs.alias[st[1]] = st[2]
+                hist.append(st[3])
+                continue
+            if st[0] == "remove":
+                m.remove(st[1])
+                hist.append(f"{st[1]} removed")
+                continue
+            _, path, args, kw = st
+            r = m.call(path, *args, as_path=as_path, **kw)
+            nev += 1
+            c = m.fs.canon(path)
+            shown = f"f({path!r}" + "".join(f", {a!r}" for a in args) \
+                + "".join(f", {k}={v!r}" for k, v in kw.items()) + ")"
+            hist.append(shown)
+            if c in m.fs.files:
+                want = ("ok", ("digest", m.meta[c][0], tuple(args),
+                               tuple(sorted(kw.items()))))
+            else:
+                want = None
+            if want is None:
+                if r[0] == "ok":
+                    fail("returns fresh value", f"history [{'; '.join(hist)}]"
+                         f": {shown} on a missing file -> {r!r} (a "
+                         "remembered value), a fresh call raises")
+            elif r != want:
+                fail("returns fresh value", f"history [{'; '.join(hist)}]: "
+                     f"{shown} -> {r!r}, a fresh call of the wrapped "
+                     f"function returns {want[1]!r}")
+    ctx.stat("R17.5 model calls", nev)
+    ok = "returns fresh value" not in fails
+    ctx.ob("R17.5", ok, f"{nev} model calls (same file through a link and a "
+           "`..` detour, equal content under other names, positional and "
+           "keyword extra arguments, file rewritten with equal size / equal "
+           "time stamp / within the same second, removed and created again; "
+           "str and Path): every call returns what a fresh call returns"
+           if ok else fails["returns fresh value"], node=call,
+           label="model: returns fresh value")
     hf = repo.func(UT, "hashfile")
     ok = any("file_monitoring_lru_cache" in txt(d) for d in hf.decorator_list)
     ctx.ob("R17.5", ok, "hashfile is memoised through the file-monitoring "
@@ -288,77 +337,101 @@ def r175(ctx, repo):
 
 
 def r176(ctx, repo):
-    init = canon(repo, CO, repo.func(CO, "LazyContourList.__init__"))
-    dq = {}
-    for n in walk(init):
-        if isinstance(n, ast.Assign) and isinstance(n.value, ast.Call) \
-                and call_name(n.value) == "deque" and is_self_attr(
-                    n.targets[0]):
-            dq[n.targets[0].attr] = txt(kwarg(n.value, "maxlen", 1))
-    if len(dq) != 2:
-        raise AnalysisError("LazyContourList: two deques expected")
-    ok = len(set(dq.values())) == 1
-    ctx.ob("R17.6", ok, "both deques have the same maxlen expression" if ok
-           else f"deque bounds differ: {dq}", node=init,
-           label="deques same maxlen")
-    gi = inline_helpers(repo, CO, repo.func(CO, "LazyContourList.__getitem__"))
-    names = list(dq)
-    apps = {a: [c for c in find_calls(gi, attr="append")
-                if is_self_attr(c.func.value, a)] for a in names}
-    ok = all(len(v) == 1 for v in apps.values())
-    if ok:
-        s0 = apps[names[0]][0]
-        s1 = apps[names[1]][0]
-        p0 = s0.parent.parent
-        p1 = s1.parent.parent
-        ok = p0 is p1 and abs(s0.lineno - s1.lineno) <= 2
-    ctx.ob("R17.6", ok, "contour and index are always appended together"
-           if ok else "the two deques are not appended together", node=gi,
-           label="deques appended together")
-    # every mutation of one deque is mirrored on the other (same method, in
-    # the same block): a one-sided delete/pop makes the positions drift
-    muts = {a: [] for a in names}
-    for n in walk(gi):
-        if isinstance(n, ast.Call) and isinstance(n.func, ast.Attribute) \
-                and is_self_attr(n.func.value) and n.func.value.attr in names \
-                and n.func.attr in ("append", "appendleft", "pop", "popleft",
-                                    "remove", "clear", "insert", "rotate",
-                                    "extend"):
-            st = n
-            while not isinstance(st, ast.stmt):
-                st = st.parent
-            muts[n.func.value.attr].append((n.func.attr, id(st.parent)))
-        if isinstance(n, ast.Delete):
-            for t in n.targets:
-                if isinstance(t, ast.Subscript) and is_self_attr(t.value) \
-                        and t.value.attr in names:
-                    muts[t.value.attr].append(("del", id(n.parent)))
-    ok = sorted(muts[names[0]]) == sorted(muts[names[1]])
-    ctx.ob("R17.6", ok, "every mutation of one deque is mirrored on the "
-           "other in the same block" if ok else
-           f"the deques are mutated differently "
-           f"({names[0]}: {[m for m, _ in muts[names[0]]]}, {names[1]}: "
-           f"{[m for m, _ in muts[names[1]]]}): positions drift apart and a "
-           f"hit returns another event's contour", node=gi,
-           label="deque mutations mirrored")
-    # the hit path reads the contour at the position of the index
-    hit = [n for n in walk(gi) if isinstance(n, ast.Assign) and isinstance(
-        n.value, ast.Subscript) and is_self_attr(n.value.value)]
-    idx = [n for n in walk(gi) if isinstance(n, ast.Assign) and isinstance(
-        n.value, ast.Call) and last_attr(n.value) == "index"]
-    ok = bool(hit) and bool(idx) and txt(hit[0].value.slice) == txt(
-        idx[0].targets[0]) and hit[0].value.value.attr != \
-        idx[0].value.func.value.attr
-    ctx.ob("R17.6", ok, "a hit returns the contour stored at the position of "
-           "the matching index" if ok else "hit path reads the wrong slot",
-           node=gi, label="hit position")
-    # a miss computes from the mask of the same index
-    comp = [c for c in find_calls(gi, name="get_contour")]
-    ok = bool(comp) and isinstance(comp[0].args[0], ast.Subscript) and \
-        txt(comp[0].args[0].slice) == gi.args.args[1].arg
-    ctx.ob("R17.6", ok, "a miss computes the contour of the requested event"
-           if ok else "miss path computes another event", node=gi,
-           label="miss computes requested")
+    """`LazyContourList` (loaded from its syntax tree) over model masks:
+    every access sequence returns the contour of the requested event, the
+    stores stay bounded and parallel."""
+    import itertools
+    from ..lib_C17 import LazyModel
+    gi = repo.func(CO, "LazyContourList.__getitem__")
+    fails = {}
+
+    def fail(key, msg):
+        if "'Mask'" in msg and ("AttributeError" in msg
+                                or "TypeError" in msg):
+            raise AnalysisError("r176: the model lacks what the code uses: "
+                                + msg[:300])
+        fails.setdefault(key, msg)
+    nev = 0
+    lens = (1, 2, 3, 4) if ctx.tier != "thorough" else (1, 2, 3, 4, 5)
+    for me in (1, 2, 3, None, 0):
+        seqs = itertools.chain.from_iterable(
+            itertools.product((0, 1, 2), repeat=n) for n in lens)
+        for seq in seqs:
+            m = LazyModel(repo, 4, me)
+            for k, idx in enumerate(seq):
+                r = m.get(idx)
+                nev += 1
+                what = (f"max_events={me}, accesses {list(seq[:k + 1])}")
+                if r != ("ok", ("contour", idx)):
+                    fail("returns requested contour", f"{what}: [{idx}] -> "
+                         f"{r!r}, expected the contour of event {idx}")
+                st = m.stores()
+                sizes = {k_: len(v) for k_, v in st.items()}
+                if me and any(n > me for n in sizes.values()):
+                    fail("bounded", f"{what}: {sizes} entries kept, "
+                         f"max_events={me}")
+                if len(set(sizes.values())) > 1:
+                    fail("stores parallel", f"{what}: the stores have "
+                         f"different lengths {sizes}")
+    # slices, negative indices, errors
+    m = LazyModel(repo, 4, 2)
+    r = m.get(slice(1, 4))
+    if r != ("ok", [("contour", 1), ("contour", 2), ("contour", 3)]):
+        fail("returns requested contour", f"[1:4] -> {r!r}")
+    r = m.get(slice(None, None, 2))
+    if r != ("ok", [("contour", 0), ("contour", 2)]):
+        fail("returns requested contour", f"[::2] -> {r!r}")
+    def aligned(m_, what):
+        """position p of the contour store holds the contour of the event
+        at position p of the index store"""
+        st_ = m_.stores()
+        idxs = [v for v in st_.values() if v and all(
+            isinstance(x, int) for x in v)]
+        cons = [v for v in st_.values() if v and all(
+            isinstance(x, tuple) for x in v)]
+        for iv in idxs:
+            for cv in cons:
+                if len(iv) != len(cv) or any(
+                        c != ("contour", i) for i, c in zip(iv, cv)):
+                    fail("stores parallel", f"{what}: indices {list(iv)} "
+                         f"against contours {list(cv)}: the positions have "
+                         "drifted apart, a hit returns another event's "
+                         "contour")
+    for me in (2, 3, None):
+        for order in ((1, 2, 1, 3, 2, 0, 3), (2, 2, 0, 2, 1), (0, 2, 3, 2)):
+            m = LazyModel(repo, 4, me, failing=(2,))
+            for k, i in enumerate(order):
+                r = m.get(i)
+                nev += 1
+                what = (f"max_events={me}, event 2 has no valid contour, "
+                        f"accesses {list(order[:k + 1])}")
+                if i == 2:
+                    if r[0] == "ok":
+                        fail("errors propagate", f"{what}: [2] -> {r!r} "
+                             "instead of the error of the contour "
+                             "computation")
+                elif r != ("ok", ("contour", i)):
+                    fail("returns requested contour", f"{what}: [{i}] -> "
+                         f"{r!r}, expected the contour of event {i}")
+                aligned(m, what)
+    m = LazyModel(repo, 4, "default")
+    for i in (0, 1, 2, 3, 0):
+        r = m.get(i)
+        if r != ("ok", ("contour", i)):
+            fail("returns requested contour", f"default bound: [{i}] -> "
+                 f"{r!r}")
+    ctx.stat("R17.6 model accesses", nev)
+    obs = [("returns requested contour", "every access of every sequence "
+            f"({nev} accesses, bounds 1, 2, 3, none) returns the contour of "
+            "the requested event"),
+           ("bounded", "never more than max_events contours kept"),
+           ("stores parallel", "the stores have equal length after every "
+            "access"),
+           ("errors propagate", "a failing contour computation raises")]
+    for key, good in obs:
+        ok = key not in fails
+        ctx.ob("R17.6", ok, good if ok else fails[key], node=gi,
+               label="model: " + key)
 
 
 def r177(ctx, repo):
@@ -945,8 +1018,8 @@ def run(ctx):
     ctx.rule("R17.3", "eviction keeps key list and cache in step", minimum=4)
     ctx.rule("R17.4", "shared cached objects reach the dataset interface "
              "only through allocation", minimum=7)
-    ctx.rule("R17.5", "file cache key: resolved path, mtime_ns, size, "
-             "remaining args; missing paths by-pass", minimum=6)
+    ctx.rule("R17.5", "file cache: every call returns what a fresh call "
+             "returns (model file system)", minimum=2)
     ctx.rule("R17.6", "LazyContourList deques bounded and filled together",
              minimum=4)
     ctx.rule("R17.7", "memoised functions read no module state", minimum=4)
@@ -1019,11 +1092,20 @@ MUTANTS = [
      ("            mask[mids] = idx\n            return x[idx], y[idx], mask",
       "            return x[idx], y[idx], idx"), "R17.4"),
     ("file cache key loses mtime", UT,
-     ("path_stats=(path_stat.st_mtime_ns, path_stat.st_size)",
-      "path_stats=(path_stat.st_size,)"), "R17.5"),
+     ("(path_stat.st_mtime_ns, path_stat.st_size)",
+      "(path_stat.st_size,)"), "R17.5"),
     ("file cache key loses size", UT,
-     ("path_stats=(path_stat.st_mtime_ns, path_stat.st_size)",
-      "path_stats=(path_stat.st_mtime_ns,)"), "R17.5"),
+     ("(path_stat.st_mtime_ns, path_stat.st_size)",
+      "(path_stat.st_mtime_ns,)"), "R17.5"),
+    ("file cache key in float seconds", UT,
+     ("(path_stat.st_mtime_ns, path_stat.st_size)",
+      "(path_stat.st_mtime, path_stat.st_size)"), "R17.5"),
+    ("file cache: extra arguments collide with the path (F17d returns)", UT,
+     ("                    full_path,\n"
+      "                    (path_stat.st_mtime_ns, path_stat.st_size),\n",
+      "                    path=full_path,\n"
+      "                    path_stats=(path_stat.st_mtime_ns, "
+      "path_stat.st_size),\n"), "R17.5"),
     ("file cache path unresolved", UT,
      ("full_path = pathlib.Path(path).resolve()",
       "full_path = pathlib.Path(path)"), "R17.5"),
